@@ -260,11 +260,14 @@ def run(ctx):
         gs.append(['stone', 2, 'path', n, '--sparse', n])
         gs.append(['tseitin', n, 3])
         gs.append(['subsetcard', n, 2])
+    huge = [10 ** 19, 2 ** 63, 10 ** 400, '1' + '0' * 4400]
+    gs += [['tseitin', h_] for h_ in huge] + [['op', h_, 4] for h_ in huge] + [['subsetcard', h_] for h_ in huge] + [['kcolor', 2, 'gnm', h_, 0] for h_ in huge]
+    gs += [['php', h_, 2] for h_ in huge[:2]] + [['vdw', h_, 2, 2] for h_ in huge[2:]] + [['randkcnf', 3, h_, 2] for h_ in huge[2:]]
     gs += [['kcolor', 2, 'gnp', 3, p_] for p_ in ('-0.1', '0', '1', '1.1', 'x')]
     gs += [['php', 'shift', 3, 4] + pat for pat in ([], [0], [1, 2], [4], [5], [-1], [1, 1])]
     gs += [['kcolor', 2, 'grid'] + dims for dims in ([], [0], [1], [2, 2], [2, 0], [-1, 2])] + [['kcolor', 2, 'torus'] + dims for dims in ([], [2], [3, 3], [1, 1])]
     gs += [['php', 'complete', a_, b_] for a_ in (0, 1, 2) for b_ in (0, 1, 2)] + [['php', 'empty', 0, 0], ['kcolor', 2, 'empty', 0], ['kcolor', 2, 'complete', 0]]
-    gsel = gs if not quick else rng.sample(gs, 170)
+    gsel = gs if not quick else rng.sample(gs, 170) + [g_ for g_ in gs if any((isinstance(x, int) and x >= 10 ** 19) or (isinstance(x, str) and len(x) > 100) for x in g_)]
     for g_ in gsel:
         argv = ['-q'] + [str(x) for x in g_]
         # a `save` with and without its file name, at the end of the graph argument
@@ -413,6 +416,8 @@ def site_of(tool, argv, kind, detail):
         sub = tool
     if '' in argv:
         return 'empty-token', '%s-%s' % (kind, exc)
+    if exc == 'OverflowError' and sub in ('randkcnf', 'randkxor') and any(len(str(t)) > 18 for t in argv):
+        return 'randk-huge-n', '%s-%s' % (kind, exc)      # D47: n beyond the machine word
     if kind == 'traceback' and any(str(t).endswith(('.kthlist', '.dimacs', '.matrix', '.gml', '.dot')) for t in argv):
         ext = next(str(t).rsplit('.', 1)[1] for t in argv if str(t).endswith(('.kthlist', '.dimacs', '.matrix', '.gml', '.dot')))
         return 'graph-reader', '%s-%s' % (ext, exc)
